@@ -117,6 +117,19 @@ def gen(rng, tier):
             else:
                 burst.append(['by_ack', rng.randrange(cfg['nby'])])
         ops.append(burst)
+    if cfg['msgpack'] and rng.random() < 0.4:
+        # aimed (msgpack carries any integer as an ack id): a callback is
+        # outstanding for the offender, it answers with an id no server ever
+        # issued (negative / huge), then the room is used again
+        import msgpack as mp
+        at = rng.randrange(len(ops) + 1)
+        bad = rng.choice([-1, -1, 0, -2, 2 ** 63, 10 ** 18])
+        ops[at:at] = [[['off_reopen']],
+                      [['room_cb', '/', 'Qa%d' % tok]],
+                      [['off', ['bin', mp.packb({'type': 3, 'nsp': '/',
+                                                 'id': bad, 'data': []})]]],
+                      [['room_cb', '/', 'Qb%d' % tok],
+                       ['room_emit', '/', 'Rb%d' % tok]]]
     return {'cfg': cfg, 'ops': ops}
 
 
